@@ -7,6 +7,7 @@
   The same `step` function is what the driver executes when it replays implementation traces.
 -/
 import MayVerif.Proof.Sync.Mutex.Step
+import MayVerif.Model.Sync.MutexPinnedF11
 namespace MayVerif.Mutex
 
 /-- **Mutual exclusion**: at most one actor is inside the critical section. -/
@@ -198,5 +199,25 @@ example : (run (init 3 1) [(0, .startLock), (0, .go), (1, .startLock), (1, .go),
 example : (run (init 2 1) [(0, .startLock), (0, .go), (1, .startTry), (1, .go)]).pcs 1 = .idle := by decide
 example : atPop ((run (init 2 1) [(0, .startLock), (0, .go), (1, .startLock), (1, .go), (1, .go), (1, .go),
     (0, .unlock), (0, .go)]).pcs 0) = true := by decide
+
+/-- **Negation witness for the pinned tree (defect F11, repaired by /repo 5bd8b87).** In the model variant of the code
+    as pinned – where a waiter whose cancel is ignored (cancellation disabled: the re-lock inside `Condvar::wait`) still
+    registers the release action and parks again – mutual exclusion FAILS: actor 1 is cancelled while parked, registers,
+    parks again; actor 0's unlock pops it, wakes it and, seeing the release flag, unlocks once more; actor 1 wakes up as
+    the holder while the lock is free, and actor 2 takes it on the fast path. The same history was replayed on the real
+    code (`corpus/C05/F11_demo.rs`: two simultaneous holders in 20 of 20 rounds before the fix, none after).
+    `mutex_mutual_exclusion` above is about the repaired code, whose `i6load` never registers. -/
+theorem mutex_pinned_f11_two_holders :
+    ∃ sched : List (Nat × MutexPinnedF11.Env),
+      (MutexPinnedF11.run (MutexPinnedF11.init 3 1) sched).pcs 1 = .held ∧
+      (MutexPinnedF11.run (MutexPinnedF11.init 3 1) sched).pcs 2 = .held :=
+  ⟨[(0, .startLock), (0, .go),                               -- 0 holds the lock
+    (1, .startLock), (1, .go), (1, .go), (1, .go),           -- 1 registers and parks
+    (1, .abortIgnore), (1, .go), (1, .go), (1, .go),         -- 1: cancel ignored: not unparked, set_release, re-check, park again
+    (0, .unlock), (0, .go), (0, .go), (0, .go), (0, .go),    -- 0 unlocks: pop 1, unpark, unparked := true
+    (0, .go), (0, .go),                                      --   take_release = true: unlock AGAIN: the lock is free
+    (1, .go),                                                -- 1 wakes up believing it holds the lock
+    (2, .startLock), (2, .go)],                              -- 2 takes the free lock
+   by decide⟩
 
 end MayVerif.Mutex
